@@ -36,6 +36,8 @@ pub trait Config: 'static {
     /// reserve / reserve_exact / shrink_to_fit / shrink_to, erased or through the typed view; false = not offered by this backend
     fn cap_op(_v: &mut AnyVec<Self::Tr, Self::M>, _op: &str, _n: usize, _typed: bool) -> bool { false }
     fn with_capacity(_n: usize) -> Option<AnyVec<Self::Tr, Self::M>> { None }
+    /// clone(), lazy clones, clone_empty probes with cloning: only for constraint sets that include Cloneable
+    fn clone_ops(_w: &mut World<Self>, _a: &Value, _out: &mut ActOut) -> bool where Self: Sized { false }
 }
 
 pub type V<C> = AnyVec<<C as Config>::Tr, <C as Config>::M>;
@@ -565,6 +567,25 @@ impl<C: Config> World<C> {
                 let n = bound_val(a["n"].as_i64().unwrap_or(0));
                 if !C::cap_op(self.v(x), op, n, st(a, "path") == "typed") { panic!("driver: capacity operations not offered by this backend"); }
             }
+            "clone_vec" | "lazy" => {
+                if !C::clone_ops(self, a, out) { panic!("driver: clone operations need a Cloneable constraint set"); }
+            }
+            "ce_probe" => {
+                if !C::clone_ops(self, a, out) {
+                    let src: &V<C> = self.v(x);
+                    match st(a, "via") {
+                        "same" => ce_probe_basic::<C, C::M>(src, src.clone_empty(), out),
+                        "stack" => ce_probe_basic::<C, any_vec::mem::Stack<512>>(src, src.clone_empty_in(any_vec::mem::Stack::<512>), out),
+                        "stackn" => ce_probe_basic::<C, any_vec::mem::StackN<3, 512>>(src, src.clone_empty_in(any_vec::mem::StackN::<3, 512>), out),
+                        "fence" => ce_probe_basic::<C, fence::FenceMemBuilder>(src, src.clone_empty_in(fence::FenceMemBuilder), out),
+                        #[cfg(feature = "alloc")]
+                        "heap" => ce_probe_basic::<C, any_vec::mem::Heap>(src, src.clone_empty_in(any_vec::mem::Heap), out),
+                        #[cfg(not(feature = "alloc"))]
+                        "heap" => ce_probe_basic::<C, any_vec::mem::Stack<512>>(src, src.clone_empty_in(any_vec::mem::Stack::<512>), out),
+                        v => panic!("driver: bad via {}", v),
+                    }
+                }
+            }
             "recreate" => {
                 // drop the vector and build a new one with_capacity(n)
                 let n = bound_val(a["n"].as_i64().unwrap_or(0));
@@ -615,11 +636,14 @@ impl<C: Config> World<C> {
         if let Err(p) = r {
             let msg = if let Some(s) = p.downcast_ref::<String>() { s.clone() } else if let Some(s) = p.downcast_ref::<&str>() { s.to_string() } else { "?".to_string() };
             if msg.starts_with("driver:") {
-                eprintln!("DRIVER ERROR: {} in action {}", msg, a);
-                std::process::exit(3);
+                // the driver could not perform the action (e.g. the handle it needs does not exist because an earlier step
+                // misbehaved): logged, and judged a tool error by the trace specification unless the path is already tainted
+                out.res = "driver_error";
+                out.note.push(msg);
+            } else {
+                out.res = "panic";
+                out.note.push(panic_class(&msg));
             }
-            out.res = "panic";
-            out.note.push(panic_class(&msg));
         }
         // raw replacement values that came back
         let back: Vec<Box<dyn std::any::Any>> = RETURNED.with(|r| std::mem::take(&mut *r.borrow_mut()));
@@ -715,4 +739,134 @@ pub fn cbs_json(cbs: &[Cb]) -> (Vec<i64>, Vec<Value>, i64, i64, Vec<Value>) {
         }
     }
     (drops, clones, nexts, lens, mem)
+}
+
+
+fn mk_elem<C: Config>(out: &mut ActOut) -> C::E {
+    let id = if C::E::SZ == 0 { 0 } else { reg::fresh_id() };
+    out.born.push(id);
+    C::E::make(id, 0)
+}
+fn ce_check<C: Config, M2: MemBuilder>(src: &V<C>, t: &AnyVec<C::Tr, M2>, out: &mut ActOut) {
+    if t.len() != 0 || !t.is_empty() { out.note.push("bad_ce_len".to_string()); }
+    if t.element_typeid() != src.element_typeid() || t.element_layout() != src.element_layout()
+        || t.element_drop().is_some() != src.element_drop().is_some() {
+        out.note.push("bad_ce_type".to_string());
+    }
+}
+/// clone_empty / clone_empty_in probe without cloning: the twin accepts a value, reports it, destroys it
+pub fn ce_probe_basic<C: Config, M2: MemBuilder>(src: &V<C>, mut t: AnyVec<C::Tr, M2>, out: &mut ActOut) {
+    ce_check::<C, M2>(src, &t, out);
+    let val = mk_elem::<C>(out);
+    let d = val.decode_self();
+    t.push(AnyValueWrapper::new(val));
+    let got = t.downcast_ref::<C::E>().map(|s| s.as_slice()[0].decode_self());
+    if got != Some(d) || t.len() != 1 { out.note.push("bad_ce_value".to_string()); }
+    drop(t);
+}
+
+pub fn clone_ops_impl<C: Config>(w: &mut World<C>, a: &Value, out: &mut ActOut) -> bool
+where C::Tr: any_vec::traits::Cloneable {
+    use any_vec::any_value::AnyValueCloneable;
+    let op = st(a, "op");
+    let x = vidx(st(a, "v"));
+    match op {
+        "clone_vec" => {
+            let to = vidx(st(a, "to"));
+            let nv: V<C> = w.v(x).clone();
+            let old = unsafe { Box::from_raw(w.vs[to].ptr) };
+            let b = { let _h = HarnessScope::new(); Box::new(nv) };
+            w.vs[to].ptr = Box::into_raw(b);
+            drop(old);
+        }
+        "ce_probe" => {
+            let src: &V<C> = w.v(x);
+            macro_rules! probe { ($t:expr) => {{
+                let mut t = $t;
+                let mut bad = false;
+                if t.len() != 0 { bad = true; }
+                if t.element_typeid() != src.element_typeid() || t.element_layout() != src.element_layout()
+                    || t.element_drop().is_some() != src.element_drop().is_some() { out.note.push("bad_ce_type".to_string()); }
+                let val = mk_elem::<C>(out);
+                t.push(AnyValueWrapper::new(val));
+                if src.len() > 0 { t.push(src.at(0).lazy_clone()); }
+                let t2 = t.clone();
+                if t2.len() != t.len() { bad = true; }
+                {
+                    let s1 = t.downcast_ref::<C::E>().unwrap();
+                    let s2 = t2.downcast_ref::<C::E>().unwrap();
+                    for k in 0..t.len() { if s1.as_slice()[k].decode_self().1 != s2.as_slice()[k].decode_self().1 { bad = true; } }
+                }
+                drop(t2);
+                let p = t.pop().unwrap();
+                drop(p);
+                drop(t);
+                if bad { out.note.push("bad_ce_len".to_string()); }
+            }}}
+            match st(a, "via") {
+                "same" => probe!(src.clone_empty()),
+                "stack" => probe!(src.clone_empty_in(any_vec::mem::Stack::<512>)),
+                "stackn" => probe!(src.clone_empty_in(any_vec::mem::StackN::<3, 512>)),
+                "fence" => probe!(src.clone_empty_in(fence::FenceMemBuilder)),
+                #[cfg(feature = "alloc")]
+                "heap" => probe!(src.clone_empty_in(any_vec::mem::Heap)),
+                #[cfg(not(feature = "alloc"))]
+                "heap" => probe!(src.clone_empty_in(any_vec::mem::Stack::<512>)),
+                v => panic!("driver: bad via {}", v),
+            }
+        }
+        "lazy" => {
+            let depth = usz(a, "depth");
+            let n = usz(a, "n");
+            let i = usz(a, "i");
+            let sink = { let _h = HarnessScope::new(); a["sink"].clone() };
+            macro_rules! chain { ($src:expr) => {{
+                let l1 = $src.lazy_clone();
+                match depth {
+                    1 => lazy_consume::<C, _>(w, &l1, n, &sink, out),
+                    2 => { let l2 = l1.lazy_clone(); let l2b = l2.clone(); drop(l2); lazy_consume::<C, _>(w, &l2b, n, &sink, out) }
+                    _ => { let l2 = l1.lazy_clone(); let l3 = l2.lazy_clone(); lazy_consume::<C, _>(w, &l3, n, &sink, out) }
+                }
+            }}}
+            match st(a, "kind") {
+                "elem" => { let e = w.v(x).at(i); chain!(e) }
+                "handle" => {
+                    let hp: *const Handle<C> = w.vs[x].h.as_ref().expect("driver: no handle");
+                    match unsafe { &*hp } {
+                        Handle::Pop(t) => chain!(t),
+                        Handle::Remove(t) => chain!(t),
+                        Handle::SwapRemove(t) => chain!(t),
+                        _ => panic!("driver: lazy of non-tmp handle"),
+                    }
+                }
+                "item" => { let ip: *const El<C> = &w.vs[x].kept[i]; let e = unsafe { &*ip }; chain!(e) }
+                k => panic!("driver: bad lazy kind {}", k),
+            }
+        }
+        _ => return false,
+    }
+    true
+}
+
+fn lazy_consume<C: Config, L: AnyValue + Clone>(w: &mut World<C>, lz: &L, n: usize, sink: &Value, out: &mut ActOut) {
+    if lz.value_typeid() != TypeId::of::<C::E>() || lz.size() != C::E::SZ { out.note.push("badtype".to_string()); }
+    match st(sink, "k") {
+        "splice" => {
+            let items: Vec<L> = { let _h = HarnessScope::new(); (0..n).map(|_| lz.clone()).collect() };
+            let to = vidx(st(sink, "to"));
+            let sp = w.v(to).splice(usz(sink, "s")..usz(sink, "e"), items);
+            drop(sp);
+        }
+        k => {
+            for _ in 0..n {
+                let c = lz.clone();
+                match k {
+                    "push" => { let to = vidx(st(sink, "to")); w.v(to).push(c); }
+                    "insert" => { let to = vidx(st(sink, "to")); w.v(to).insert(usz(sink, "i"), c); }
+                    "ext" => { let v = c.downcast::<C::E>().expect("driver: lazy downcast"); out.ret.push(v.decode_self()); w.ext.push(v); }
+                    k => panic!("driver: bad lazy sink {}", k),
+                }
+            }
+        }
+    }
 }
